@@ -212,7 +212,7 @@ pub fn c01(cfg: &Cfg, idx: u64, st: &mut Stats) {
         let second = idx != dstart + C01_DELTAS.len() as u64;
         let (f, l) = if second { (10u32, 5u32) } else { (256, 2) };
         let case = MemBuildCase {
-            fam: KeyFamily { n: (f as u64).pow(l), fanout: f, keylen: l, seed: 1, pairs: false, leaf_fan: 0, decreasing: false, repeat: 1 },
+            fam: KeyFamily { n: (f as u64).pow(l), fanout: f, keylen: l, seed: 1, pairs: false, leaf_fan: 0, decreasing: false, repeat: 1, sec_vocab: 0, sec_parents: 0 },
             map: second,
             registry: None,
             bufcap: None,
@@ -220,6 +220,8 @@ pub fn c01(cfg: &Cfg, idx: u64, st: &mut Stats) {
             shape: Shape::Full,
             bulk: false,
             bulk_stream: false,
+            rejects: 0,
+            reject_run: 0,
         };
         st.report("C01", &Case::MemBuild(case));
         return;
@@ -242,7 +244,7 @@ pub fn c01(cfg: &Cfg, idx: u64, st: &mut Stats) {
             Tier::Thorough => 3_000_000,
         };
         let fanout = *rng.pick(&[2u32, 26, 256]);
-        let fam = KeyFamily { n, fanout, keylen: 14, seed: rng.next_u64(), pairs: idx % 2 == 1, leaf_fan: 0, decreasing: false, repeat: 1 };
+        let fam = KeyFamily { n, fanout, keylen: 14, seed: rng.next_u64(), pairs: idx % 2 == 1, leaf_fan: 0, decreasing: false, repeat: 1, sec_vocab: 0, sec_parents: 0 };
         let case = MemBuildCase {
             fam,
             map: idx % 2 == 0,
@@ -252,6 +254,8 @@ pub fn c01(cfg: &Cfg, idx: u64, st: &mut Stats) {
             shape: Shape::Random { short_16: 3, intr_16: 1 },
             bulk: false,
             bulk_stream: false,
+            rejects: 0,
+            reject_run: 0,
         };
         st.report("C01", &Case::MemBuild(case));
         return;
@@ -572,7 +576,7 @@ pub fn c11(cfg: &Cfg, idx: u64, st: &mut Stats) {
             Tier::Thorough => 3_000_000,
         };
         let case = MemBuildCase {
-            fam: KeyFamily { n, fanout: 26, keylen: 12, seed: rng.next_u64(), pairs: idx == 1, leaf_fan: 0, decreasing: false, repeat: 1 },
+            fam: KeyFamily { n, fanout: 26, keylen: 12, seed: rng.next_u64(), pairs: idx == 1, leaf_fan: 0, decreasing: false, repeat: 1, sec_vocab: 0, sec_parents: 0 },
             map: idx % 2 == 0,
             registry: [None, Some((64, 2)), Some((3, 3))][(idx % 3) as usize],
             bufcap: if idx == 2 { Some(8192) } else { None },
@@ -581,6 +585,8 @@ pub fn c11(cfg: &Cfg, idx: u64, st: &mut Stats) {
             shape: Shape::Random { short_16: 2, intr_16: 1 },
             bulk: false,
             bulk_stream: false,
+            rejects: 0,
+            reject_run: 0,
         };
         st.report("C11", &Case::MemBuild(case));
         return;
@@ -724,7 +730,7 @@ pub fn c20(cfg: &Cfg, idx: u64, st: &mut Stats) {
         // values, with and without a recomputed checksum, truncations around
         // the end, and the older format versions (size thresholds in open /
         // verify must not turn garbage into a panic)
-        let fam = KeyFamily { n: 110_000, fanout: 26, keylen: 12, seed: rng.next_u64(), pairs: false, leaf_fan: 0, decreasing: false, repeat: 1 };
+        let fam = KeyFamily { n: 110_000, fanout: 26, keylen: 12, seed: rng.next_u64(), pairs: false, leaf_fan: 0, decreasing: false, repeat: 1, sec_vocab: 0, sec_parents: 0 };
         let mut b = fst::MapBuilder::memory();
         let mut key = Vec::new();
         for i in 0..fam.n {
@@ -1019,6 +1025,12 @@ fn task_with_checksum(key: &[u8], target: u32) -> Option<TaskSpec> {
 const C08_SPECIAL_SUMS: [u32; 8] =
     [0, 1, 0xFFFF_FFFF, 0x8000_0000, 0xA282_EAD8, 0x0000_FFFF, 0xFFFF_0000, 0x0100_0000];
 
+/// Plain CRC-32C values c whose masked form differs from c in exactly one
+/// byte (found by a search over all 2^32 values; checked again at run time):
+/// for an artifact with such a checksum, altering ONE trailer byte turns the
+/// trailer into the plain CRC of the body.
+const C08_ONE_BYTE_FROM_PLAIN: [u32; 6] = [0x0044_eb61, 0x009a_2f0c, 0x0144_af61, 0x0244_ef61, 0x029a_300c, 0x0344_b061];
+
 pub fn c08(cfg: &Cfg, idx: u64, st: &mut Stats) {
     let (files, payloads, _) = c08_sizes(cfg);
     let mut rng = rng_for(cfg, idx);
@@ -1036,6 +1048,41 @@ pub fn c08(cfg: &Cfg, idx: u64, st: &mut Stats) {
         }
         return;
     }
+    if idx > files + 24 && idx <= files + 24 + C08_ONE_BYTE_FROM_PLAIN.len() as u64 {
+        let c = C08_ONE_BYTE_FROM_PLAIN[(idx - files - 25) as usize];
+        let target = crate::model::mask(c);
+        if (target ^ c).to_le_bytes().iter().filter(|b| **b != 0).count() != 1 {
+            crate::exec::harness_error("C08: one-byte-from-plain table is wrong".to_string());
+        }
+        if let Some(task) = task_with_checksum(b"k", target) {
+            let bytes = crate::build::reference_build(&task).1.unwrap_or_default();
+            let n = bytes.len();
+            let hit = n >= 4 && bytes[n - 4..] == target.to_le_bytes();
+            st.count(if hit { "probe.artifact_whose_checksum_is_one_byte_from_plain_crc" } else { "probe.checksum_solver_missed" }, 1);
+            if st.report("C08", &Case::Corrupt(CorruptCase { base: Base::Build(task.clone()), muts: vec![] })) {
+                return;
+            }
+            // every single-byte substitution in the trailer and the 16 bytes before it
+            let mut m = bytes.clone();
+            for pos in n.saturating_sub(20)..n {
+                let orig = bytes[pos];
+                for val in 0..=255u8 {
+                    if val == orig {
+                        continue;
+                    }
+                    m[pos] = val;
+                    if crate::restart::check_c08b_bytes(&bytes, &m, false).is_some() {
+                        let cc = CorruptCase { base: Base::Build(task.clone()), muts: vec![Mutation::Subst { pos, val }] };
+                        st.report("C08", &Case::Corrupt(cc));
+                        return;
+                    }
+                }
+                m[pos] = orig;
+            }
+            st.count("corrupt.exhaustive_substitutions_and_bursts", 20 * 255);
+        }
+        return;
+    }
     if idx == files {
         // one artifact of several MiB: build path (byte-at-a-time sums) vs
         // verify path (16 bytes at a time over the whole file) at a scale
@@ -1045,7 +1092,7 @@ pub fn c08(cfg: &Cfg, idx: u64, st: &mut Stats) {
             Tier::Thorough => 4_000_000,
         };
         let case = MemBuildCase {
-            fam: KeyFamily { n, fanout: 26, keylen: 12, seed: rng.next_u64(), pairs: false, leaf_fan: 0, decreasing: false, repeat: 1 },
+            fam: KeyFamily { n, fanout: 26, keylen: 12, seed: rng.next_u64(), pairs: false, leaf_fan: 0, decreasing: false, repeat: 1, sec_vocab: 0, sec_parents: 0 },
             map: true,
             registry: None,
             bufcap: None,
@@ -1053,6 +1100,8 @@ pub fn c08(cfg: &Cfg, idx: u64, st: &mut Stats) {
             shape: Shape::Random { short_16: 3, intr_16: 1 },
             bulk: false,
             bulk_stream: false,
+            rejects: 0,
+            reject_run: 0,
         };
         st.report("C08", &Case::MemBuild(case));
         return;
@@ -1116,6 +1165,18 @@ pub fn c08(cfg: &Cfg, idx: u64, st: &mut Stats) {
                         return;
                     }
                 }
+            }
+        }
+        // trailer replaced by values derived from the body that a lenient
+        // verify() could mistake for the checksum
+        for kind in crate::restart::TRAILER_KINDS {
+            let mut m2 = bytes.clone();
+            crate::restart::apply(&mut m2, &Mutation::TrailerFrom { kind });
+            n += 1;
+            if crate::restart::check_c08b_bytes(&bytes, &m2, true).is_some() {
+                let cc = CorruptCase { base: Base::Build(task.clone()), muts: vec![Mutation::TrailerFrom { kind }] };
+                st.report("C08", &Case::Corrupt(cc));
+                return;
             }
         }
         let mut d = crate::rng::Digest::new();
@@ -1212,7 +1273,8 @@ pub fn c08(cfg: &Cfg, idx: u64, st: &mut Stats) {
         None => return,
     };
     let n = bytes.len();
-    let m = match rng.below(4) {
+    let m = match if rng.chance(1, 10) { 9 } else { rng.below(4) } {
+        9 => Mutation::TrailerFrom { kind: *rng.pick(&crate::restart::TRAILER_KINDS) },
         0 => {
             let pos = biased_pos(&mut rng, n);
             Mutation::Subst { pos, val: bytes[pos] ^ (1 << rng.below(8)) }
@@ -1284,8 +1346,17 @@ pub fn c15(cfg: &Cfg, idx: u64, st: &mut Stats) {
         st.report("C15", &Case::Multi(case));
         return;
     }
-    let valued = rng.chance(2, 3);
-    let items = gen::sequence(&mut rng, 30, valued);
+    let mut valued = rng.chance(2, 3);
+    let mut items = gen::sequence(&mut rng, 30, valued);
+    if rng.chance(1, 8) {
+        // a sequence with a wide node (more than 32 transitions: the one
+        // place where the builder hands the sink a write of 256 bytes)
+        let small = rng.chance(1, 2);
+        let (_, wide) = gen::wide_task(&mut rng, small);
+        valued = wide.iter().any(|(_, v)| *v != 0);
+        items = wide;
+        st.count("probe.c15_sequence_with_wide_node", 1);
+    }
     let geometry = if rng.chance(1, 4) { None } else { gen::geometry(&mut rng) };
     let n_same = rng.urange(2, 6);
     let mut tasks = Vec::new();
@@ -1366,13 +1437,15 @@ pub fn c13_cases(cfg: &Cfg) -> Vec<MemBuildCase> {
                 si += 1;
                 out.push(MemBuildCase {
                     shape: shapes[si % shapes.len()],
-                    fam: KeyFamily { n, fanout: 26, keylen: 12, seed: seed ^ n, pairs: g.map_or(false, |g| g.0 == 5) || (map && g.is_none()), leaf_fan: 0, decreasing: false, repeat: 1 },
+                    fam: KeyFamily { n, fanout: 26, keylen: 12, seed: seed ^ n, pairs: g.map_or(false, |g| g.0 == 5) || (map && g.is_none()), leaf_fan: 0, decreasing: false, repeat: 1, sec_vocab: 0, sec_parents: 0 },
                     map,
                     registry: g,
                     bufcap: if map { None } else { Some(4096) },
                     every: 1000,
                     bulk: false,
                     bulk_stream: false,
+                    rejects: 0,
+                    reject_run: 0,
                 });
             }
         }
@@ -1380,7 +1453,7 @@ pub fn c13_cases(cfg: &Cfg) -> Vec<MemBuildCase> {
     // other fan-outs and key lengths at one scale (incl. the 256-way node)
     for (i, (f, l)) in [(2u32, 40u32), (256, 8), (64, 24), (256, 64), (10, 16), (33, 12)].iter().enumerate() {
         out.push(MemBuildCase {
-            fam: KeyFamily { n: 200_000, fanout: *f, keylen: *l, seed: seed ^ (*f as u64) << 8, pairs: i % 2 == 1, leaf_fan: 0, decreasing: false, repeat: 1 },
+            fam: KeyFamily { n: 200_000, fanout: *f, keylen: *l, seed: seed ^ (*f as u64) << 8, pairs: i % 2 == 1, leaf_fan: 0, decreasing: false, repeat: 1, sec_vocab: 0, sec_parents: 0 },
             map: i % 2 == 0,
             registry: [None, Some((128, 2)), Some((3, 3))][i % 3],
             bufcap: None,
@@ -1388,6 +1461,8 @@ pub fn c13_cases(cfg: &Cfg) -> Vec<MemBuildCase> {
             shape: shapes[i % shapes.len()],
             bulk: false,
             bulk_stream: false,
+            rejects: 0,
+            reject_run: 0,
         });
     }
     // an unbounded number of DISTINCT wide nodes (leaf fans of 33..64 last
@@ -1395,7 +1470,7 @@ pub fn c13_cases(cfg: &Cfg) -> Vec<MemBuildCase> {
     // down on every insert)
     for (i, (fan, g)) in [(40u32, Some((3usize, 3usize))), (33, Some((64, 2))), (64, None), (48, Some((128, 2)))].iter().enumerate() {
         out.push(MemBuildCase {
-            fam: KeyFamily { n: if g.is_none() { 3_000_000 } else { 300_000 }, fanout: 26, keylen: 6, seed: seed ^ 0xfa4 ^ i as u64, pairs: false, leaf_fan: *fan, decreasing: i % 2 == 1, repeat: 1 },
+            fam: KeyFamily { n: if g.is_none() { 3_000_000 } else { 300_000 }, fanout: 26, keylen: 6, seed: seed ^ 0xfa4 ^ i as u64, pairs: false, leaf_fan: *fan, decreasing: i % 2 == 1, repeat: 1, sec_vocab: 0, sec_parents: 0 },
             map: i % 2 == 1,
             registry: *g,
             bufcap: None,
@@ -1403,11 +1478,13 @@ pub fn c13_cases(cfg: &Cfg) -> Vec<MemBuildCase> {
             shape: shapes[i % shapes.len()],
             bulk: false,
             bulk_stream: false,
+            rejects: 0,
+            reject_run: 0,
         });
     }
     for (i, g) in [Some((64usize, 2usize)), None, Some((1, 1))].iter().enumerate() {
         out.push(MemBuildCase {
-            fam: KeyFamily { n: if g.is_none() { 2_000_000 } else { 300_000 }, fanout: 10, keylen: 10, seed: seed ^ 0xdec ^ i as u64, pairs: i == 2, leaf_fan: 0, decreasing: true, repeat: 1 },
+            fam: KeyFamily { n: if g.is_none() { 2_000_000 } else { 300_000 }, fanout: 10, keylen: 10, seed: seed ^ 0xdec ^ i as u64, pairs: i == 2, leaf_fan: 0, decreasing: true, repeat: 1, sec_vocab: 0, sec_parents: 0 },
             map: true,
             registry: *g,
             bufcap: None,
@@ -1415,13 +1492,15 @@ pub fn c13_cases(cfg: &Cfg) -> Vec<MemBuildCase> {
             shape: shapes[(i + 2) % shapes.len()],
             bulk: false,
             bulk_stream: false,
+            rejects: 0,
+            reject_run: 0,
         });
     }
     // the opposite extreme: complete F-ary trees (keylen == counter width),
     // i.e. very long stretches of keys that create no new node at all
     for (i, (f, l, g)) in [(2u32, 22u32, None), (4, 10, Some((64usize, 2usize))), (2, 18, Some((1, 1))), (4, 11, None)].iter().enumerate() {
         out.push(MemBuildCase {
-            fam: KeyFamily { n: (*f as u64).pow(*l), fanout: *f, keylen: *l, seed: seed ^ 0xde5e ^ i as u64, pairs: false, leaf_fan: 0, decreasing: false, repeat: 1 },
+            fam: KeyFamily { n: (*f as u64).pow(*l), fanout: *f, keylen: *l, seed: seed ^ 0xde5e ^ i as u64, pairs: false, leaf_fan: 0, decreasing: false, repeat: 1, sec_vocab: 0, sec_parents: 0 },
             map: i == 1,
             registry: *g,
             bufcap: None,
@@ -1429,12 +1508,14 @@ pub fn c13_cases(cfg: &Cfg) -> Vec<MemBuildCase> {
             shape: shapes[i % shapes.len()],
             bulk: false,
             bulk_stream: false,
+            rejects: 0,
+            reject_run: 0,
         });
     }
     // one bulk call over a large slice (exact size hint) instead of a loop
     for (i, g) in [None, Some((64usize, 2usize))].iter().enumerate() {
         out.push(MemBuildCase {
-            fam: KeyFamily { n: 400_000, fanout: 26, keylen: 12, seed: seed ^ 0xb01c ^ i as u64, pairs: false, leaf_fan: 0, decreasing: false, repeat: 1 },
+            fam: KeyFamily { n: 400_000, fanout: 26, keylen: 12, seed: seed ^ 0xb01c ^ i as u64, pairs: false, leaf_fan: 0, decreasing: false, repeat: 1, sec_vocab: 0, sec_parents: 0 },
             map: i == 0,
             registry: *g,
             bufcap: None,
@@ -1442,12 +1523,14 @@ pub fn c13_cases(cfg: &Cfg) -> Vec<MemBuildCase> {
             shape: Shape::Full,
             bulk: true,
             bulk_stream: false,
+            rejects: 0,
+            reject_run: 0,
         });
     }
     // one extend_stream call fed by the stream of a large source FST
     for (i, g) in [None, Some((64usize, 2usize)), Some((3, 3))].iter().enumerate() {
         out.push(MemBuildCase {
-            fam: KeyFamily { n: 400_000, fanout: 26, keylen: 12, seed: seed ^ 0x57e ^ i as u64, pairs: false, leaf_fan: 0, decreasing: false, repeat: 1 },
+            fam: KeyFamily { n: 400_000, fanout: 26, keylen: 12, seed: seed ^ 0x57e ^ i as u64, pairs: false, leaf_fan: 0, decreasing: false, repeat: 1, sec_vocab: 0, sec_parents: 0 },
             map: i != 2,
             registry: *g,
             bufcap: None,
@@ -1455,12 +1538,55 @@ pub fn c13_cases(cfg: &Cfg) -> Vec<MemBuildCase> {
             shape: Shape::Full,
             bulk: true,
             bulk_stream: true,
+            rejects: 0,
+            reject_run: 0,
+        });
+    }
+    // refused inserts in between the accepted ones (a smaller key; for maps
+    // also the same key again): a refused insert must not leave memory behind
+    for (i, g) in [Some((128usize, 2usize)), Some((64usize, 2usize)), Some((3, 3))].iter().enumerate() {
+        out.push(MemBuildCase {
+            fam: KeyFamily { n: 400_000, fanout: 26, keylen: 12, seed: seed ^ 0x4e1 ^ i as u64, pairs: i == 2, leaf_fan: 0, decreasing: false, repeat: 1, sec_vocab: 0, sec_parents: 0 },
+            map: i != 1,
+            registry: *g,
+            bufcap: None,
+            every: 1000,
+            shape: shapes[i % shapes.len()],
+            bulk: false,
+            bulk_stream: false,
+            rejects: if i == 0 { 0 } else { 2 + i as u32 },
+            reject_run: [150_000, 0, 100_000][i],
+        });
+    }
+    // sectioned streams: a vocabulary of tails that fits the cache is found
+    // again and again under several parents, then a new section's vocabulary
+    // pushes those often-found nodes out
+    for (i, (g, vocab, parents, l, n)) in [
+        (None, 500u32, 6u32, 8u32, 2_000_000u64),
+        (None, 400, 8, 8, 1_500_000),
+        (Some((64usize, 2usize)), 10, 6, 6, 300_000),
+        (Some((5, 7)), 4, 9, 5, 300_000),
+    ]
+    .iter()
+    .enumerate()
+    {
+        out.push(MemBuildCase {
+            fam: KeyFamily { n: *n, fanout: 26, keylen: *l, seed: seed ^ 0x5ec ^ i as u64, pairs: false, leaf_fan: 0, decreasing: false, repeat: 1, sec_vocab: *vocab, sec_parents: *parents },
+            map: i % 2 == 1,
+            registry: *g,
+            bufcap: None,
+            every: 1000,
+            shape: shapes[i % shapes.len()],
+            bulk: false,
+            bulk_stream: false,
+            rejects: 0,
+            reject_run: 0,
         });
     }
     // sets fed long runs of one and the same key (a legal no-op each time)
     for (i, (bulk, g)) in [(true, Some((64usize, 2usize))), (false, Some((3, 3))), (true, None)].iter().enumerate() {
         out.push(MemBuildCase {
-            fam: KeyFamily { n: if g.is_none() { 4_000_000 } else { 600_000 }, fanout: 26, keylen: 12, seed: seed ^ 0x4e9 ^ i as u64, pairs: false, leaf_fan: 0, decreasing: false, repeat: 150_000 },
+            fam: KeyFamily { n: if g.is_none() { 4_000_000 } else { 600_000 }, fanout: 26, keylen: 12, seed: seed ^ 0x4e9 ^ i as u64, pairs: false, leaf_fan: 0, decreasing: false, repeat: 150_000, sec_vocab: 0, sec_parents: 0 },
             map: false,
             registry: *g,
             bufcap: None,
@@ -1468,12 +1594,14 @@ pub fn c13_cases(cfg: &Cfg) -> Vec<MemBuildCase> {
             shape: Shape::Full,
             bulk: *bulk,
             bulk_stream: false,
+            rejects: 0,
+            reject_run: 0,
         });
     }
     if cfg.tier == Tier::Thorough {
         for map in [false, true] {
             out.push(MemBuildCase {
-                fam: KeyFamily { n: 30_000_000, fanout: 26, keylen: 13, seed: seed ^ 99, pairs: !map, leaf_fan: 0, decreasing: false, repeat: 1 },
+                fam: KeyFamily { n: 30_000_000, fanout: 26, keylen: 13, seed: seed ^ 99, pairs: !map, leaf_fan: 0, decreasing: false, repeat: 1, sec_vocab: 0, sec_parents: 0 },
                 map,
                 registry: None,
                 bufcap: None,
@@ -1481,12 +1609,14 @@ pub fn c13_cases(cfg: &Cfg) -> Vec<MemBuildCase> {
                 shape: Shape::Full,
                 bulk: false,
                 bulk_stream: false,
+                rejects: 0,
+                reject_run: 0,
             });
         }
         for (f, l) in [(2u32, 40u32), (10, 16), (64, 24), (256, 64), (256, 8)] {
             for g in [None, Some((128, 2)), Some((0, 0))] {
                 out.push(MemBuildCase {
-                    fam: KeyFamily { n: 2_000_000, fanout: f, keylen: l, seed: seed ^ f as u64, pairs: l % 16 == 0, leaf_fan: 0, decreasing: false, repeat: 1 },
+                    fam: KeyFamily { n: 2_000_000, fanout: f, keylen: l, seed: seed ^ f as u64, pairs: l % 16 == 0, leaf_fan: 0, decreasing: false, repeat: 1, sec_vocab: 0, sec_parents: 0 },
                     map: f % 4 == 0,
                     registry: g,
                     bufcap: None,
@@ -1494,12 +1624,14 @@ pub fn c13_cases(cfg: &Cfg) -> Vec<MemBuildCase> {
                     shape: if l % 16 == 0 { Shape::Cap(4096) } else { Shape::Random { short_16: 2, intr_16: 1 } },
                     bulk: false,
                     bulk_stream: false,
+                    rejects: 0,
+                    reject_run: 0,
                 });
             }
         }
         for map in [false, true] {
             out.push(MemBuildCase {
-                fam: KeyFamily { n: 10_000_000, fanout: 26, keylen: 12, seed: seed ^ 77, pairs: map, leaf_fan: 0, decreasing: false, repeat: 1 },
+                fam: KeyFamily { n: 10_000_000, fanout: 26, keylen: 12, seed: seed ^ 77, pairs: map, leaf_fan: 0, decreasing: false, repeat: 1, sec_vocab: 0, sec_parents: 0 },
                 map,
                 registry: None,
                 bufcap: None,
@@ -1507,6 +1639,8 @@ pub fn c13_cases(cfg: &Cfg) -> Vec<MemBuildCase> {
                 shape: if map { Shape::Cap(4096) } else { Shape::Random { short_16: 2, intr_16: 1 } },
                 bulk: false,
                 bulk_stream: false,
+                rejects: 0,
+                reject_run: 0,
             });
         }
     }
